@@ -8,6 +8,16 @@ BASELINE_OFF = "cd /repo && cargo test --workspace --no-fail-fast --offline"
 
 # id -> (engine, category, technique, level text, level note, design ref)
 CHECKS = {
+ "C01": ("codec", "model_checking",
+  "bounded-exhaustive enumeration of DOM plans (value alphabets x column positions x property knowledge; forests x class assignments x root selections x Ref/SharedString/Content placements) through the real rbx_binary writer and reader under all three compression modes, against the plan's expected canonical form",
+  "Every case of the stated finite space is executed on the real codec and compared bit-exactly (floats as raw bits) with an expectation computed from the plan with only the documented normalisations. Round-trip fidelity is a universally quantified statement over inputs; the small-scope space is enumerated completely, nothing is sampled.",
+  "Finite boundary alphabets (DESIGN.md 3.3), forests <= 3 (quick) / 4 (thorough) nodes, columns <= 2/3 instances; expected canonical names from our own walk of the reflection database (harness/src/specdb.rs).",
+  "5/C01"),
+ "C02": ("codec", "model_checking",
+  "bounded-exhaustive enumeration of DOM plans through the real rbx_xml writer and reader under every option pairing that keeps a property, against the plan's expected canonical form",
+  "Same enumeration as C01 over the XML type set plus the text alphabet in names and values and chains to depth 300; default/default, WriteUnknown/ReadUnknown and NoReflection/NoReflection pairings; floats bit-exact through their decimal text, NaN as a class.",
+  "Finite boundary alphabets; strings XML-1.0 legal; sequences >= 2 keypoints; xml-rs trusted for XML well-formedness (checked independently in C05).",
+  "5/C02"),
  "C09": ("domx", "model_checking",
   "explicit-state BFS to fixed point over canonical states of two real WeakDoms (all 7 operations, every valid argument), invariants on every transition",
   "Every reachable state of a pair of WeakDoms with at most N live instances (N=10 quick, 12 thorough) is visited; on every transition the real WeakDom objects (history-replayed and freshly built) are checked for forest well-formedness through the public API and on the consumed backing map. Well-formedness is an invariant of a finite-state system once the node count is bounded, so exhaustive reachability is the natural level.",
@@ -78,6 +88,8 @@ def main():
         "engines": [
             {"name": "domx", "path": "harness/src/domx.rs", "serves_properties": ["C09", "C10", "C11", "C12"],
              "kind_free_text": "explicit-state BFS whose transition function calls the real WeakDom methods; reference model in lock-step (harness/src/dommodel.rs)"},
+            {"name": "codec", "path": "harness/src/sweeps.rs", "serves_properties": ["C01", "C02"],
+             "kind_free_text": "bounded-exhaustive case enumeration (harness/src/codec.rs) through the real codecs in forked workers; expectations from plans + specdb"},
             {"name": "sched", "path": "harness/src/sched.rs", "serves_properties": ["C18", "C12"],
              "kind_free_text": "deterministic baton scheduler over real OS threads; stateless DFS over choice vectors with iterated preemption bound; yield points injected by cfg(rbx_dom_verif) shims in rbx_types"},
         ],
